@@ -81,7 +81,11 @@ func vGetWorld() *vWorld {
 		w.SrvKEM = kem
 		w.CliKey, w.CliLeaf = vLeaf(w.Inter, "client-one")
 		w.Cli2Key, w.Cli2Leaf = vLeaf(w.Inter, "client-two")
+		c01OtherWorld()
 		w.Now = w.SrvLeaf.IssuedAt.Add(time.Minute)
+		if o := c01Other.Inter.IssuedAt.Add(time.Minute); o.After(w.Now) {
+			w.Now = o
+		}
 		vTheWorld = w
 	})
 	return vTheWorld
